@@ -206,84 +206,84 @@ package mux
 //@ pure reqOf(x interface{}) *AsyncC = *AsyncC(x)
 //@ func Worker.asyncCall
 //@   requires wwf(w)
-//@   ensures #enqueued isreq(lastAdded) && reqOf(lastAdded).op == op && reqOf(lastAdded).ctx == ctx && chancap(reqOf(lastAdded).rChan) == 1 && lastQ == w.workQ
+//@   ensures #enqueued isreq(lastAdded) && reqOf(lastAdded).op == op && reqOf(lastAdded).ctx == ctx && chancap(reqOf(lastAdded).rChan) == 1 && lastQ == w.workQ && !lastPrior
 //@   ensures #nocallback storeCalls == old(storeCalls)
-//@   modifies lastAdded, lastQ, region($alloc), region($chancap), region($chanlen), region($chanclosed), Q.closed, list.List.lmem, list.List.lcnt, list.Element.lrk, list.Element.Value
+//@   modifies lastAdded, lastQ, lastPrior, region($alloc), region($chancap), region($chanlen), region($chanclosed), Q.closed, list.List.lmem, list.List.lcnt, list.Element.lrk, list.Element.Value
 //@ func Worker.DoGet
 //@   requires wwf(w) && w.ca != nil
-//@   ensures #hit old(has(cacheMap, k)) ==> result0 == cacheMap[k] && result1 == nil && lastAdded == old(lastAdded) && lastQ == old(lastQ)
-//@   ensures #miss !old(has(cacheMap, k)) ==> lastQ == w.workQ && isreq(lastAdded) && reqOf(lastAdded).ctx == ctx && chancap(reqOf(lastAdded).rChan) == 1 && tag(reqOf(lastAdded).op) == tagof(*OpLoad) && *OpLoad(reqOf(lastAdded).op) != nil && (*OpLoad(reqOf(lastAdded).op)).loadFn == loadFn && (*OpLoad(reqOf(lastAdded).op)).k == k
+//@   ensures #hit old(has(cacheMap, k)) ==> result0 == cacheMap[k] && result1 == nil && lastAdded == old(lastAdded) && lastQ == old(lastQ) && lastPrior == old(lastPrior)
+//@   ensures #miss !old(has(cacheMap, k)) ==> lastQ == w.workQ && !lastPrior && isreq(lastAdded) && reqOf(lastAdded).ctx == ctx && chancap(reqOf(lastAdded).rChan) == 1 && tag(reqOf(lastAdded).op) == tagof(*OpLoad) && *OpLoad(reqOf(lastAdded).op) != nil && (*OpLoad(reqOf(lastAdded).op)).loadFn == loadFn && (*OpLoad(reqOf(lastAdded).op)).k == k
 //@   ensures #nocallback storeCalls == old(storeCalls) && cacheSame()
-//@   modifies lastAdded, lastQ, region($alloc), region($chancap), region($chanlen), region($chanclosed), Q.closed, list.List.lmem, list.List.lcnt, list.Element.lrk, list.Element.Value
+//@   modifies lastAdded, lastQ, lastPrior, region($alloc), region($chancap), region($chanlen), region($chanclosed), Q.closed, list.List.lmem, list.List.lcnt, list.Element.lrk, list.Element.Value
 //@ func Worker.DoAdd
 //@   requires wwf(w)
-//@   ensures #enqueued lastQ == w.workQ && isreq(lastAdded) && reqOf(lastAdded).ctx == ctx && chancap(reqOf(lastAdded).rChan) == 1 && tag(reqOf(lastAdded).op) == tagof(*OpAdd) && *OpAdd(reqOf(lastAdded).op) != nil && (*OpAdd(reqOf(lastAdded).op)).addFn == addFn && (*OpAdd(reqOf(lastAdded).op)).k == k && (*OpAdd(reqOf(lastAdded).op)).data == data
+//@   ensures #enqueued lastQ == w.workQ && !lastPrior && isreq(lastAdded) && reqOf(lastAdded).ctx == ctx && chancap(reqOf(lastAdded).rChan) == 1 && tag(reqOf(lastAdded).op) == tagof(*OpAdd) && *OpAdd(reqOf(lastAdded).op) != nil && (*OpAdd(reqOf(lastAdded).op)).addFn == addFn && (*OpAdd(reqOf(lastAdded).op)).k == k && (*OpAdd(reqOf(lastAdded).op)).data == data
 //@   ensures #nocallback storeCalls == old(storeCalls) && cacheSame()
-//@   modifies lastAdded, lastQ, region($alloc), region($chancap), region($chanlen), region($chanclosed), Q.closed, list.List.lmem, list.List.lcnt, list.Element.lrk, list.Element.Value
+//@   modifies lastAdded, lastQ, lastPrior, region($alloc), region($chancap), region($chanlen), region($chanclosed), Q.closed, list.List.lmem, list.List.lcnt, list.Element.lrk, list.Element.Value
 //@ func Worker.DoUpdate
 //@   requires wwf(w)
-//@   ensures #enqueued lastQ == w.workQ && isreq(lastAdded) && reqOf(lastAdded).ctx == ctx && chancap(reqOf(lastAdded).rChan) == 1 && tag(reqOf(lastAdded).op) == tagof(*OpUpdate) && *OpUpdate(reqOf(lastAdded).op) != nil && (*OpUpdate(reqOf(lastAdded).op)).loadFn == loadFn && (*OpUpdate(reqOf(lastAdded).op)).updFn == updFn && (*OpUpdate(reqOf(lastAdded).op)).k == k && (*OpUpdate(reqOf(lastAdded).op)).data == data
+//@   ensures #enqueued lastQ == w.workQ && !lastPrior && isreq(lastAdded) && reqOf(lastAdded).ctx == ctx && chancap(reqOf(lastAdded).rChan) == 1 && tag(reqOf(lastAdded).op) == tagof(*OpUpdate) && *OpUpdate(reqOf(lastAdded).op) != nil && (*OpUpdate(reqOf(lastAdded).op)).loadFn == loadFn && (*OpUpdate(reqOf(lastAdded).op)).updFn == updFn && (*OpUpdate(reqOf(lastAdded).op)).k == k && (*OpUpdate(reqOf(lastAdded).op)).data == data
 //@   ensures #nocallback storeCalls == old(storeCalls) && cacheSame()
-//@   modifies lastAdded, lastQ, region($alloc), region($chancap), region($chanlen), region($chanclosed), Q.closed, list.List.lmem, list.List.lcnt, list.Element.lrk, list.Element.Value
+//@   modifies lastAdded, lastQ, lastPrior, region($alloc), region($chancap), region($chanlen), region($chanclosed), Q.closed, list.List.lmem, list.List.lcnt, list.Element.lrk, list.Element.Value
 //@ func Worker.DoDelete
 //@   requires wwf(w)
-//@   ensures #enqueued lastQ == w.workQ && isreq(lastAdded) && reqOf(lastAdded).ctx == ctx && chancap(reqOf(lastAdded).rChan) == 1 && tag(reqOf(lastAdded).op) == tagof(*OpDelete) && *OpDelete(reqOf(lastAdded).op) != nil && (*OpDelete(reqOf(lastAdded).op)).deleteFn == deleteFn && (*OpDelete(reqOf(lastAdded).op)).k == k
+//@   ensures #enqueued lastQ == w.workQ && !lastPrior && isreq(lastAdded) && reqOf(lastAdded).ctx == ctx && chancap(reqOf(lastAdded).rChan) == 1 && tag(reqOf(lastAdded).op) == tagof(*OpDelete) && *OpDelete(reqOf(lastAdded).op) != nil && (*OpDelete(reqOf(lastAdded).op)).deleteFn == deleteFn && (*OpDelete(reqOf(lastAdded).op)).k == k
 //@   ensures #nocallback storeCalls == old(storeCalls) && cacheSame()
-//@   modifies lastAdded, lastQ, region($alloc), region($chancap), region($chanlen), region($chanclosed), Q.closed, list.List.lmem, list.List.lcnt, list.Element.lrk, list.Element.Value
+//@   modifies lastAdded, lastQ, lastPrior, region($alloc), region($chancap), region($chanlen), region($chanclosed), Q.closed, list.List.lmem, list.List.lcnt, list.Element.lrk, list.Element.Value
 //@ func Worker.DoUpdOrAddIfNull
 //@   requires wwf(w)
-//@   ensures #enqueued lastQ == w.workQ && isreq(lastAdded) && reqOf(lastAdded).ctx == ctx && chancap(reqOf(lastAdded).rChan) == 1 && tag(reqOf(lastAdded).op) == tagof(*OpMixUpdOrAddIfNull) && *OpMixUpdOrAddIfNull(reqOf(lastAdded).op) != nil && (*OpMixUpdOrAddIfNull(reqOf(lastAdded).op)).loadFn == loadFn && (*OpMixUpdOrAddIfNull(reqOf(lastAdded).op)).updFn == updFn && (*OpMixUpdOrAddIfNull(reqOf(lastAdded).op)).addFn == addFn && (*OpMixUpdOrAddIfNull(reqOf(lastAdded).op)).isNotFoundFn == isNotFoundFn && (*OpMixUpdOrAddIfNull(reqOf(lastAdded).op)).k == k && (*OpMixUpdOrAddIfNull(reqOf(lastAdded).op)).data == data
+//@   ensures #enqueued lastQ == w.workQ && !lastPrior && isreq(lastAdded) && reqOf(lastAdded).ctx == ctx && chancap(reqOf(lastAdded).rChan) == 1 && tag(reqOf(lastAdded).op) == tagof(*OpMixUpdOrAddIfNull) && *OpMixUpdOrAddIfNull(reqOf(lastAdded).op) != nil && (*OpMixUpdOrAddIfNull(reqOf(lastAdded).op)).loadFn == loadFn && (*OpMixUpdOrAddIfNull(reqOf(lastAdded).op)).updFn == updFn && (*OpMixUpdOrAddIfNull(reqOf(lastAdded).op)).addFn == addFn && (*OpMixUpdOrAddIfNull(reqOf(lastAdded).op)).isNotFoundFn == isNotFoundFn && (*OpMixUpdOrAddIfNull(reqOf(lastAdded).op)).k == k && (*OpMixUpdOrAddIfNull(reqOf(lastAdded).op)).data == data
 //@   ensures #nocallback storeCalls == old(storeCalls) && cacheSame()
-//@   modifies lastAdded, lastQ, region($alloc), region($chancap), region($chanlen), region($chanclosed), Q.closed, list.List.lmem, list.List.lcnt, list.Element.lrk, list.Element.Value
+//@   modifies lastAdded, lastQ, lastPrior, region($alloc), region($chancap), region($chanlen), region($chanclosed), Q.closed, list.List.lmem, list.List.lcnt, list.Element.lrk, list.Element.Value
 //@ func Worker.DoUpsertThenLoad
 //@   requires wwf(w)
-//@   ensures #enqueued lastQ == w.workQ && isreq(lastAdded) && reqOf(lastAdded).ctx == ctx && chancap(reqOf(lastAdded).rChan) == 1 && tag(reqOf(lastAdded).op) == tagof(*OpMixUpsertThenLoad) && *OpMixUpsertThenLoad(reqOf(lastAdded).op) != nil && (*OpMixUpsertThenLoad(reqOf(lastAdded).op)).upsertFn == upsertFn && (*OpMixUpsertThenLoad(reqOf(lastAdded).op)).loadFn == loadFn && (*OpMixUpsertThenLoad(reqOf(lastAdded).op)).k == k && (*OpMixUpsertThenLoad(reqOf(lastAdded).op)).data == data
+//@   ensures #enqueued lastQ == w.workQ && !lastPrior && isreq(lastAdded) && reqOf(lastAdded).ctx == ctx && chancap(reqOf(lastAdded).rChan) == 1 && tag(reqOf(lastAdded).op) == tagof(*OpMixUpsertThenLoad) && *OpMixUpsertThenLoad(reqOf(lastAdded).op) != nil && (*OpMixUpsertThenLoad(reqOf(lastAdded).op)).upsertFn == upsertFn && (*OpMixUpsertThenLoad(reqOf(lastAdded).op)).loadFn == loadFn && (*OpMixUpsertThenLoad(reqOf(lastAdded).op)).k == k && (*OpMixUpsertThenLoad(reqOf(lastAdded).op)).data == data
 //@   ensures #nocallback storeCalls == old(storeCalls) && cacheSame()
-//@   modifies lastAdded, lastQ, region($alloc), region($chancap), region($chanlen), region($chanclosed), Q.closed, list.List.lmem, list.List.lcnt, list.Element.lrk, list.Element.Value
+//@   modifies lastAdded, lastQ, lastPrior, region($alloc), region($chancap), region($chanlen), region($chanclosed), Q.closed, list.List.lmem, list.List.lcnt, list.Element.lrk, list.Element.Value
 //@ func Worker.DoUpsertThenRenewInCache
 //@   requires wwf(w)
-//@   ensures #enqueued lastQ == w.workQ && isreq(lastAdded) && reqOf(lastAdded).ctx == ctx && chancap(reqOf(lastAdded).rChan) == 1 && tag(reqOf(lastAdded).op) == tagof(*OpMixUpsertThenRenewInCache) && *OpMixUpsertThenRenewInCache(reqOf(lastAdded).op) != nil && (*OpMixUpsertThenRenewInCache(reqOf(lastAdded).op)).upsertFn == upsertFn && (*OpMixUpsertThenRenewInCache(reqOf(lastAdded).op)).k == k && (*OpMixUpsertThenRenewInCache(reqOf(lastAdded).op)).data == data
+//@   ensures #enqueued lastQ == w.workQ && !lastPrior && isreq(lastAdded) && reqOf(lastAdded).ctx == ctx && chancap(reqOf(lastAdded).rChan) == 1 && tag(reqOf(lastAdded).op) == tagof(*OpMixUpsertThenRenewInCache) && *OpMixUpsertThenRenewInCache(reqOf(lastAdded).op) != nil && (*OpMixUpsertThenRenewInCache(reqOf(lastAdded).op)).upsertFn == upsertFn && (*OpMixUpsertThenRenewInCache(reqOf(lastAdded).op)).k == k && (*OpMixUpsertThenRenewInCache(reqOf(lastAdded).op)).data == data
 //@   ensures #nocallback storeCalls == old(storeCalls) && cacheSame()
-//@   modifies lastAdded, lastQ, region($alloc), region($chancap), region($chanlen), region($chanclosed), Q.closed, list.List.lmem, list.List.lcnt, list.Element.lrk, list.Element.Value
+//@   modifies lastAdded, lastQ, lastPrior, region($alloc), region($chancap), region($chanlen), region($chanclosed), Q.closed, list.List.lmem, list.List.lcnt, list.Element.lrk, list.Element.Value
 // the group: the request goes to the queue of the worker the key's hash selects (locHash), whatever the hash value
 //@ pure grpwwf(w *WorkerGrp) bool = grpwf(w) && errsOK() && forall i int :: { w.ws[i] } 0 <= i && i < len(w.ws) ==> w.ws[i].workQ != nil && w.ws[i].workQ.reqList != nil && !held(w.ws[i].workQ.lock) && w.ws[i].ca != nil
 //@ pure slot(w *WorkerGrp) int = ite(khash % w.muxSize < 0, -(khash % w.muxSize), khash % w.muxSize)
 //@ func WorkerGrp.DoGet
 //@   requires grpwwf(w) && k != nil
-//@   ensures #hit old(has(cacheMap, any(k))) ==> result0 == cacheMap[any(k)] && result1 == nil && lastAdded == old(lastAdded) && lastQ == old(lastQ)
-//@   ensures #miss !old(has(cacheMap, any(k))) ==> lastQ == w.ws[slot(w)].workQ && isreq(lastAdded) && reqOf(lastAdded).ctx == ctx && chancap(reqOf(lastAdded).rChan) == 1 && tag(reqOf(lastAdded).op) == tagof(*OpLoad) && *OpLoad(reqOf(lastAdded).op) != nil && (*OpLoad(reqOf(lastAdded).op)).loadFn == loadFn && (*OpLoad(reqOf(lastAdded).op)).k == any(k)
+//@   ensures #hit old(has(cacheMap, any(k))) ==> result0 == cacheMap[any(k)] && result1 == nil && lastAdded == old(lastAdded) && lastQ == old(lastQ) && lastPrior == old(lastPrior)
+//@   ensures #miss !old(has(cacheMap, any(k))) ==> lastQ == w.ws[slot(w)].workQ && !lastPrior && isreq(lastAdded) && reqOf(lastAdded).ctx == ctx && chancap(reqOf(lastAdded).rChan) == 1 && tag(reqOf(lastAdded).op) == tagof(*OpLoad) && *OpLoad(reqOf(lastAdded).op) != nil && (*OpLoad(reqOf(lastAdded).op)).loadFn == loadFn && (*OpLoad(reqOf(lastAdded).op)).k == any(k)
 //@   ensures #nocallback storeCalls == old(storeCalls) && cacheSame()
-//@   modifies lastAdded, lastQ, region($alloc), region($chancap), region($chanlen), region($chanclosed), Q.closed, list.List.lmem, list.List.lcnt, list.Element.lrk, list.Element.Value
+//@   modifies lastAdded, lastQ, lastPrior, region($alloc), region($chancap), region($chanlen), region($chanclosed), Q.closed, list.List.lmem, list.List.lcnt, list.Element.lrk, list.Element.Value
 //@ func WorkerGrp.DoAdd
 //@   requires grpwwf(w) && k != nil
-//@   ensures #enqueued lastQ == w.ws[slot(w)].workQ && isreq(lastAdded) && reqOf(lastAdded).ctx == ctx && chancap(reqOf(lastAdded).rChan) == 1 && tag(reqOf(lastAdded).op) == tagof(*OpAdd) && *OpAdd(reqOf(lastAdded).op) != nil && (*OpAdd(reqOf(lastAdded).op)).addFn == addFn && (*OpAdd(reqOf(lastAdded).op)).k == any(k) && (*OpAdd(reqOf(lastAdded).op)).data == data
+//@   ensures #enqueued lastQ == w.ws[slot(w)].workQ && !lastPrior && isreq(lastAdded) && reqOf(lastAdded).ctx == ctx && chancap(reqOf(lastAdded).rChan) == 1 && tag(reqOf(lastAdded).op) == tagof(*OpAdd) && *OpAdd(reqOf(lastAdded).op) != nil && (*OpAdd(reqOf(lastAdded).op)).addFn == addFn && (*OpAdd(reqOf(lastAdded).op)).k == any(k) && (*OpAdd(reqOf(lastAdded).op)).data == data
 //@   ensures #nocallback storeCalls == old(storeCalls) && cacheSame()
-//@   modifies lastAdded, lastQ, region($alloc), region($chancap), region($chanlen), region($chanclosed), Q.closed, list.List.lmem, list.List.lcnt, list.Element.lrk, list.Element.Value
+//@   modifies lastAdded, lastQ, lastPrior, region($alloc), region($chancap), region($chanlen), region($chanclosed), Q.closed, list.List.lmem, list.List.lcnt, list.Element.lrk, list.Element.Value
 //@ func WorkerGrp.DoUpdate
 //@   requires grpwwf(w) && k != nil
-//@   ensures #enqueued lastQ == w.ws[slot(w)].workQ && isreq(lastAdded) && reqOf(lastAdded).ctx == ctx && chancap(reqOf(lastAdded).rChan) == 1 && tag(reqOf(lastAdded).op) == tagof(*OpUpdate) && *OpUpdate(reqOf(lastAdded).op) != nil && (*OpUpdate(reqOf(lastAdded).op)).loadFn == loadFn && (*OpUpdate(reqOf(lastAdded).op)).updFn == updFn && (*OpUpdate(reqOf(lastAdded).op)).k == any(k) && (*OpUpdate(reqOf(lastAdded).op)).data == data
+//@   ensures #enqueued lastQ == w.ws[slot(w)].workQ && !lastPrior && isreq(lastAdded) && reqOf(lastAdded).ctx == ctx && chancap(reqOf(lastAdded).rChan) == 1 && tag(reqOf(lastAdded).op) == tagof(*OpUpdate) && *OpUpdate(reqOf(lastAdded).op) != nil && (*OpUpdate(reqOf(lastAdded).op)).loadFn == loadFn && (*OpUpdate(reqOf(lastAdded).op)).updFn == updFn && (*OpUpdate(reqOf(lastAdded).op)).k == any(k) && (*OpUpdate(reqOf(lastAdded).op)).data == data
 //@   ensures #nocallback storeCalls == old(storeCalls) && cacheSame()
-//@   modifies lastAdded, lastQ, region($alloc), region($chancap), region($chanlen), region($chanclosed), Q.closed, list.List.lmem, list.List.lcnt, list.Element.lrk, list.Element.Value
+//@   modifies lastAdded, lastQ, lastPrior, region($alloc), region($chancap), region($chanlen), region($chanclosed), Q.closed, list.List.lmem, list.List.lcnt, list.Element.lrk, list.Element.Value
 //@ func WorkerGrp.DoDelete
 //@   requires grpwwf(w) && k != nil
-//@   ensures #enqueued lastQ == w.ws[slot(w)].workQ && isreq(lastAdded) && reqOf(lastAdded).ctx == ctx && chancap(reqOf(lastAdded).rChan) == 1 && tag(reqOf(lastAdded).op) == tagof(*OpDelete) && *OpDelete(reqOf(lastAdded).op) != nil && (*OpDelete(reqOf(lastAdded).op)).deleteFn == deleteFn && (*OpDelete(reqOf(lastAdded).op)).k == any(k)
+//@   ensures #enqueued lastQ == w.ws[slot(w)].workQ && !lastPrior && isreq(lastAdded) && reqOf(lastAdded).ctx == ctx && chancap(reqOf(lastAdded).rChan) == 1 && tag(reqOf(lastAdded).op) == tagof(*OpDelete) && *OpDelete(reqOf(lastAdded).op) != nil && (*OpDelete(reqOf(lastAdded).op)).deleteFn == deleteFn && (*OpDelete(reqOf(lastAdded).op)).k == any(k)
 //@   ensures #nocallback storeCalls == old(storeCalls) && cacheSame()
-//@   modifies lastAdded, lastQ, region($alloc), region($chancap), region($chanlen), region($chanclosed), Q.closed, list.List.lmem, list.List.lcnt, list.Element.lrk, list.Element.Value
+//@   modifies lastAdded, lastQ, lastPrior, region($alloc), region($chancap), region($chanlen), region($chanclosed), Q.closed, list.List.lmem, list.List.lcnt, list.Element.lrk, list.Element.Value
 //@ func WorkerGrp.DoUpdOrAddIfNull
 //@   requires grpwwf(w) && k != nil
-//@   ensures #enqueued lastQ == w.ws[slot(w)].workQ && isreq(lastAdded) && reqOf(lastAdded).ctx == ctx && chancap(reqOf(lastAdded).rChan) == 1 && tag(reqOf(lastAdded).op) == tagof(*OpMixUpdOrAddIfNull) && *OpMixUpdOrAddIfNull(reqOf(lastAdded).op) != nil && (*OpMixUpdOrAddIfNull(reqOf(lastAdded).op)).loadFn == loadFn && (*OpMixUpdOrAddIfNull(reqOf(lastAdded).op)).updFn == updFn && (*OpMixUpdOrAddIfNull(reqOf(lastAdded).op)).addFn == addFn && (*OpMixUpdOrAddIfNull(reqOf(lastAdded).op)).isNotFoundFn == isNotFoundFn && (*OpMixUpdOrAddIfNull(reqOf(lastAdded).op)).k == any(k) && (*OpMixUpdOrAddIfNull(reqOf(lastAdded).op)).data == data
+//@   ensures #enqueued lastQ == w.ws[slot(w)].workQ && !lastPrior && isreq(lastAdded) && reqOf(lastAdded).ctx == ctx && chancap(reqOf(lastAdded).rChan) == 1 && tag(reqOf(lastAdded).op) == tagof(*OpMixUpdOrAddIfNull) && *OpMixUpdOrAddIfNull(reqOf(lastAdded).op) != nil && (*OpMixUpdOrAddIfNull(reqOf(lastAdded).op)).loadFn == loadFn && (*OpMixUpdOrAddIfNull(reqOf(lastAdded).op)).updFn == updFn && (*OpMixUpdOrAddIfNull(reqOf(lastAdded).op)).addFn == addFn && (*OpMixUpdOrAddIfNull(reqOf(lastAdded).op)).isNotFoundFn == isNotFoundFn && (*OpMixUpdOrAddIfNull(reqOf(lastAdded).op)).k == any(k) && (*OpMixUpdOrAddIfNull(reqOf(lastAdded).op)).data == data
 //@   ensures #nocallback storeCalls == old(storeCalls) && cacheSame()
-//@   modifies lastAdded, lastQ, region($alloc), region($chancap), region($chanlen), region($chanclosed), Q.closed, list.List.lmem, list.List.lcnt, list.Element.lrk, list.Element.Value
+//@   modifies lastAdded, lastQ, lastPrior, region($alloc), region($chancap), region($chanlen), region($chanclosed), Q.closed, list.List.lmem, list.List.lcnt, list.Element.lrk, list.Element.Value
 //@ func WorkerGrp.DoUpsertThenLoad
 //@   requires grpwwf(w) && k != nil
-//@   ensures #enqueued lastQ == w.ws[slot(w)].workQ && isreq(lastAdded) && reqOf(lastAdded).ctx == ctx && chancap(reqOf(lastAdded).rChan) == 1 && tag(reqOf(lastAdded).op) == tagof(*OpMixUpsertThenLoad) && *OpMixUpsertThenLoad(reqOf(lastAdded).op) != nil && (*OpMixUpsertThenLoad(reqOf(lastAdded).op)).upsertFn == upsertFn && (*OpMixUpsertThenLoad(reqOf(lastAdded).op)).loadFn == loadFn && (*OpMixUpsertThenLoad(reqOf(lastAdded).op)).k == any(k) && (*OpMixUpsertThenLoad(reqOf(lastAdded).op)).data == data
+//@   ensures #enqueued lastQ == w.ws[slot(w)].workQ && !lastPrior && isreq(lastAdded) && reqOf(lastAdded).ctx == ctx && chancap(reqOf(lastAdded).rChan) == 1 && tag(reqOf(lastAdded).op) == tagof(*OpMixUpsertThenLoad) && *OpMixUpsertThenLoad(reqOf(lastAdded).op) != nil && (*OpMixUpsertThenLoad(reqOf(lastAdded).op)).upsertFn == upsertFn && (*OpMixUpsertThenLoad(reqOf(lastAdded).op)).loadFn == loadFn && (*OpMixUpsertThenLoad(reqOf(lastAdded).op)).k == any(k) && (*OpMixUpsertThenLoad(reqOf(lastAdded).op)).data == data
 //@   ensures #nocallback storeCalls == old(storeCalls) && cacheSame()
-//@   modifies lastAdded, lastQ, region($alloc), region($chancap), region($chanlen), region($chanclosed), Q.closed, list.List.lmem, list.List.lcnt, list.Element.lrk, list.Element.Value
+//@   modifies lastAdded, lastQ, lastPrior, region($alloc), region($chancap), region($chanlen), region($chanclosed), Q.closed, list.List.lmem, list.List.lcnt, list.Element.lrk, list.Element.Value
 //@ func WorkerGrp.DoUpsertThenRenewInCache
 //@   requires grpwwf(w) && k != nil
-//@   ensures #enqueued lastQ == w.ws[slot(w)].workQ && isreq(lastAdded) && reqOf(lastAdded).ctx == ctx && chancap(reqOf(lastAdded).rChan) == 1 && tag(reqOf(lastAdded).op) == tagof(*OpMixUpsertThenRenewInCache) && *OpMixUpsertThenRenewInCache(reqOf(lastAdded).op) != nil && (*OpMixUpsertThenRenewInCache(reqOf(lastAdded).op)).upsertFn == upsertFn && (*OpMixUpsertThenRenewInCache(reqOf(lastAdded).op)).k == any(k) && (*OpMixUpsertThenRenewInCache(reqOf(lastAdded).op)).data == data
+//@   ensures #enqueued lastQ == w.ws[slot(w)].workQ && !lastPrior && isreq(lastAdded) && reqOf(lastAdded).ctx == ctx && chancap(reqOf(lastAdded).rChan) == 1 && tag(reqOf(lastAdded).op) == tagof(*OpMixUpsertThenRenewInCache) && *OpMixUpsertThenRenewInCache(reqOf(lastAdded).op) != nil && (*OpMixUpsertThenRenewInCache(reqOf(lastAdded).op)).upsertFn == upsertFn && (*OpMixUpsertThenRenewInCache(reqOf(lastAdded).op)).k == any(k) && (*OpMixUpsertThenRenewInCache(reqOf(lastAdded).op)).data == data
 //@   ensures #nocallback storeCalls == old(storeCalls) && cacheSame()
-//@   modifies lastAdded, lastQ, region($alloc), region($chancap), region($chanlen), region($chanclosed), Q.closed, list.List.lmem, list.List.lcnt, list.Element.lrk, list.Element.Value
+//@   modifies lastAdded, lastQ, lastPrior, region($alloc), region($chancap), region($chanlen), region($chanclosed), Q.closed, list.List.lmem, list.List.lcnt, list.Element.lrk, list.Element.Value
 //
 // the reply channel of a request has room for the one reply, so the worker never blocks on a caller that gave up
 //@ func NewAsync
